@@ -83,6 +83,9 @@ type outInfo struct {
 	Enc    bool   `json:"encrypted"`
 	Seed   int64  `json:"seed"`
 	Len    int    `json:"len"`
+	// generated documents only
+	Variant  string `json:"variant,omitempty"`
+	InputHex string `json:"input_hex,omitempty"`
 }
 
 // evaluate runs O on one output and records the K cases. ctxFrees/ctxSize: from the pdfcpu context when
@@ -110,6 +113,9 @@ func evaluate(info outInfo, out []byte, eol string, oracle bool, ctxFrees []free
 			if strings.HasPrefix(f.class, "free-list") {
 				cl = f.class + ":" + info.Op // the free list is op-specific, not writer-configuration-specific
 			}
+			if info.Variant != "" {
+				cl = f.class + ":" + info.Variant // generated documents: the document shape is what matters
+			}
 			r.OracleFail(cl, info, f.detail)
 		}
 	}
@@ -127,7 +133,7 @@ func evaluate(info outInfo, out []byte, eol string, oracle bool, ctxFrees []free
 			st = 3
 		case strings.HasPrefix(f.class, "size") || strings.HasPrefix(f.class, "free-list"):
 			st = 4
-		case f.class == "inuse-offset":
+		case f.class == "inuse-offset" || f.class == "inuse-generation":
 			st = 5
 		}
 		if st >= 3 {
@@ -379,8 +385,12 @@ func ops() []op {
 			}
 			return api.AddWatermarks(rd(in), w, nil, wm, c)
 		}},
-		{"collect", false, func(in []byte, w io.Writer, c *model.Configuration) error { return api.Collect(rd(in), w, []string{"1"}, c) }},
-		{"trim", false, func(in []byte, w io.Writer, c *model.Configuration) error { return api.Trim(rd(in), w, []string{"1"}, c) }},
+		{"collect", false, func(in []byte, w io.Writer, c *model.Configuration) error {
+			return api.Collect(rd(in), w, []string{"1"}, c)
+		}},
+		{"trim", false, func(in []byte, w io.Writer, c *model.Configuration) error {
+			return api.Trim(rd(in), w, []string{"1"}, c)
+		}},
 		{"nup", false, func(in []byte, w io.Writer, c *model.Configuration) error {
 			nup, err := api.PDFNUpConfig(2, "", c)
 			if err != nil {
@@ -388,7 +398,9 @@ func ops() []op {
 			}
 			return api.NUp(rd(in), w, nil, nil, nup, c)
 		}},
-		{"keywords", false, func(in []byte, w io.Writer, c *model.Configuration) error { return api.AddKeywords(rd(in), w, []string{"c18"}, c) }},
+		{"keywords", false, func(in []byte, w io.Writer, c *model.Configuration) error {
+			return api.AddKeywords(rd(in), w, []string{"c18"}, c)
+		}},
 		{"insertpages", false, func(in []byte, w io.Writer, c *model.Configuration) error {
 			return api.InsertPages(rd(in), w, []string{"1"}, true, nil, c)
 		}},
@@ -504,6 +516,161 @@ func increment(source string, base []byte, eolIdx int, xrefStream bool) {
 		return
 	}
 	evaluate(info, m.b, eol, true, nil, -1)
+}
+
+// ---------------------------------------------------------------- generated raw documents with free entries
+
+// rawDoc builds a one-page PDF (LF, classic xref table written by hand) whose objects 5 (and 6) are free
+// entries of generation g linked from object 0, optionally with a stale indirect reference to object 5.
+//
+//	stale: "" none | "annots" page /Annots 5 G R | "annots-array" page /Annots[5 G R] | "pagekey" page /C18X 5 G R
+//	       | "catalog" catalog /C18X 5 G R | "info" info dict /Title 5 G R | "kids" second entry of /Kids
+//
+// refGen is the generation used in the stale reference.
+func rawDoc(g int, twoFree bool, stale string, refGen int) []byte {
+	ref := fmt.Sprintf("5 %d R", refGen)
+	page := "<</Type/Page/Parent 2 0 R/MediaBox[0 0 200 200]/Contents 4 0 R"
+	switch stale {
+	case "annots":
+		page += "/Annots " + ref
+	case "annots-array":
+		page += "/Annots[" + ref + "]"
+	case "pagekey":
+		page += "/C18X " + ref
+	}
+	page += ">>"
+	cat := "<</Type/Catalog/Pages 2 0 R"
+	if stale == "catalog" {
+		cat += "/C18X " + ref
+	}
+	cat += ">>"
+	info := "<</Producer(C18)"
+	if stale == "info" {
+		info += "/Title " + ref
+	}
+	info += ">>"
+	content := "0 0 m 10 10 l S"
+	bodies := map[int]string{
+		1: cat,
+		2: "<</Type/Pages/Count 1/Kids[3 0 R]>>",
+		3: page,
+		4: fmt.Sprintf("<</Length %d>>\nstream\n%s\nendstream", len(content), content),
+		7: info,
+	}
+	var b bytes.Buffer
+	b.WriteString("%PDF-1.7\n%\xe2\xe3\xcf\xd3\n")
+	offs := map[int]int{}
+	for _, nr := range []int{1, 2, 3, 4, 7} {
+		offs[nr] = b.Len()
+		fmt.Fprintf(&b, "%d 0 obj\n%s\nendobj\n", nr, bodies[nr])
+	}
+	x := b.Len()
+	b.WriteString("xref\n0 8\n")
+	next6 := 0
+	if twoFree {
+		next6 = 6
+	}
+	for nr := 0; nr < 8; nr++ {
+		switch {
+		case nr == 0:
+			b.WriteString("0000000005 65535 f \n")
+		case nr == 5:
+			fmt.Fprintf(&b, "%010d %05d f \n", next6, g)
+		case nr == 6 && twoFree:
+			fmt.Fprintf(&b, "%010d %05d f \n", 0, g)
+		case nr == 6:
+			// not free, not used: a dead entry is the only legal way to have it outside the chain
+			b.WriteString("0000000000 65535 f \n")
+		default:
+			fmt.Fprintf(&b, "%010d 00000 n \n", offs[nr])
+		}
+	}
+	fmt.Fprintf(&b, "trailer\n<</Size 8/Root 1 0 R/Info 7 0 R>>\nstartxref\n%d\n%%%%EOF\n", x)
+	return b.Bytes()
+}
+
+func generated() {
+	type path struct {
+		name string
+		run  func(in []byte, w io.Writer, c *model.Configuration) error
+	}
+	rd := func(b []byte) io.ReadSeeker { return bytes.NewReader(b) }
+	paths := []path{
+		{"write-noopt", func(in []byte, w io.Writer, c *model.Configuration) error {
+			ctx, err := api.ReadContext(rd(in), c)
+			if err != nil {
+				return err
+			}
+			if err := api.ValidateContext(ctx); err != nil {
+				return err
+			}
+			return api.WriteContext(ctx, w)
+		}},
+		{"rotate-noopt", func(in []byte, w io.Writer, c *model.Configuration) error {
+			c.Optimize, c.OptimizeBeforeWriting = false, false
+			return api.Rotate(rd(in), w, 90, nil, c)
+		}},
+		{"optimize", func(in []byte, w io.Writer, c *model.Configuration) error { return api.Optimize(rd(in), w, c) }},
+	}
+	for _, stale := range []string{"", "annots", "annots-array", "pagekey", "catalog", "info"} {
+		for g := 1; g <= 3; g++ {
+			for _, twoFree := range []bool{false, true} {
+				refGens := []int{g - 1}
+				if stale != "" && g > 1 {
+					refGens = append(refGens, 0) // a reference to an even older generation
+				}
+				if stale == "" {
+					refGens = []int{0}
+				}
+				for _, rg := range refGens {
+					in := rawDoc(g, twoFree, stale, rg)
+					// the input itself must be acceptable to the strict oracle (sanity of the generator)
+					if ck := checkFile(in, "\n", false); len(ck.findings) > 0 {
+						panic("generator produced a bad input: " + ck.findings[0].detail)
+					}
+					variant := "gen-free"
+					if stale != "" {
+						variant = "gen-stale-" + stale
+						if rg != g-1 {
+							variant += "-oldgen"
+						}
+					}
+					for _, p := range paths {
+						for eolIdx := 0; eolIdx < 3; eolIdx++ {
+							for k := 0; k < 3; k++ {
+								eol := eols[eolIdx]
+								c := conf(eol, k >= 1, k == 2)
+								var out bytes.Buffer
+								var err error
+								var panicked any
+								func() {
+									defer func() { panicked = recover() }()
+									err = p.run(in, &out, c)
+								}()
+								info := outInfo{Source: fmt.Sprintf("generated(g=%d,twoFree=%v,stale=%q,refGen=%d)", g, twoFree, stale, rg), Op: p.name,
+									Eol: eolNames[eolIdx], XRef: map[bool]string{true: "stream", false: "table"}[k >= 1], ObjStm: k == 2, Seed: r.Seed,
+									Variant: variant + ":" + p.name, InputHex: vh.Hex(in)}
+								r.Count("gen:" + variant + ":" + p.name)
+								if panicked != nil {
+									r.OracleFail("panic:"+variant+":"+p.name, info, fmt.Sprint(panicked))
+									continue
+								}
+								if err != nil {
+									if strings.Contains(err.Error(), "panic") || strings.Contains(err.Error(), "runtime error") {
+										r.OracleFail("panic:"+variant+":"+p.name, info, err.Error())
+									} else {
+										r.Count("gen-op-error:" + variant + ":" + p.name)
+									}
+									continue
+								}
+								evaluate(info, out.Bytes(), eol, true, nil, -1)
+							}
+						}
+					}
+				}
+			}
+		}
+	}
 }
 
 func documents() {
@@ -663,5 +830,6 @@ func main() {
 	for i := 0; i < r.Pick(250, 3000); i++ {
 		synthetic(i)
 	}
+	generated()
 	documents()
 }
